@@ -199,6 +199,14 @@ def _perturbations(params: list[tuple[str, str, bool, bool]], other_methods: lis
                     d["cols"][i], d["cols"][j] = d["cols"][j], d["cols"][i]
                     return d
                 add(f"swap[{i},{j}]", at(i, swap))
+    if n:
+        # drop ALL columns / all but the first k: for a method whose parameters all have defaults the name-set checks
+        # forgive every omission, so only the field-count comparison stands between such a request and the method
+        add("drop-all", lambda d: {**_copy(d), "cols": []} if d["cols"] else None)
+        add("drop-all,rows=0", lambda d: {**_copy(d), "cols": [], "rows": 0} if d["cols"] else None)
+        for k in range(1, n):
+            add(f"keep-first-{k}", lambda d, k=k: {**_copy(d), "cols": [list(c) for c in d["cols"][:k]]} if len(d["cols"]) > k else None)
+            add(f"keep-last-{k}", lambda d, k=k: {**_copy(d), "cols": [list(c) for c in d["cols"][-k:]]} if len(d["cols"]) > k else None)
     if n > 2:
         add("rotate", lambda d: {**_copy(d), "cols": [list(c) for c in d["cols"][1:] + d["cols"][:1]]})
     for pos in sorted({0, n // 2, n}):
@@ -324,6 +332,10 @@ def run(ctx: Any) -> None:
         ("m4", True, []),
         ("m5", True, []),   # twins of m4 / m2: a URL naming the twin with metadata naming the original conforms in everything but the name
         ("m6", False, []),
+        # every parameter defaulted (no dictionary-encoded column, so the shm-routed variants apply too)
+        ("m7", False, [("a", "int", False, True), ("b", "str", False, True), ("c", "float", True, True)]),
+        ("m8", True, [("a", "int", False, True), ("v", "dc", True, True)]),
+        ("m9", False, [("e", "enum", False, True)]),
     ]
     services = [curated]
     for _ in range(6 if thorough else 2):
